@@ -15,6 +15,11 @@ from .runner import main, Run
 
 def build(np, rng, cfg):
     nrb, nel, nrf = cfg["lay"]
+    if cfg.get("order") == "interleaved":
+        labels = ["rb", "el", "rb"] + ["el"] * (nel - 1) + ["rf"] * nrf      # two rigid-body equations, not contiguous
+        nrb = 2
+    else:
+        labels = ["rb"] * nrb + ["el"] * nel + ["rf"] * nrf
     n = nrb + nel + nrf
     md = rng.uniform(0.5, 2.0, n)
     w = rng.uniform(20.0, 200.0, nel)
@@ -23,8 +28,9 @@ def build(np, rng, cfg):
         z = np.array([0.05, 1.7])[:nel]                 # under- and over-damped side by side
     kd = np.zeros(n, complex if cfg["cplxk"] else float)
     bd = np.zeros(n)
-    el = np.arange(nrb, nrb + nel)
-    rf = np.arange(nrb + nel, n)
+    el = np.array([i for i, l in enumerate(labels) if l == "el"], int)
+    rf = np.array([i for i, l in enumerate(labels) if l == "rf"], int)
+    rbi = np.array([i for i, l in enumerate(labels) if l == "rb"], int)
     kd[el] = w ** 2 * md[el]
     if cfg["cplxk"]:
         kd[el] = kd[el] * (1 + 0.04j)
@@ -46,6 +52,11 @@ def build(np, rng, cfg):
             Te = np.eye(nel) + 0.3 * rng.standard_normal((nel, nel))
         T[np.ix_(el, el)] = Te
         M, B, K = T.T @ M @ T, T.T @ B @ T, T.T @ K @ T
+    if cfg.get("gyro"):
+        g = 0.8 * np.sqrt(abs(B[el[0], el[0]] * B[el[1], el[1]]))
+        B = B.copy()
+        B[el[0], el[1]] += g
+        B[el[1], el[0]] -= g                      # skew-symmetric part: B is no longer symmetric, M and K are
     if cfg["mform"] == "none":
         marg = None
     elif cfg["mform"] == "vec":
@@ -57,7 +68,7 @@ def build(np, rng, cfg):
     karg = np.diag(K).copy() if diag else K
     wres = float(w[0])
     return dict(n=n, md=md, bd=bd, kd=kd, scale=scale, T=T, M=M, B=B, K=K, marg=marg, barg=barg, karg=karg,
-                rb=np.arange(nrb), el=el, rf=rf, wres=wres)
+                rb=rbi, el=el, rf=rf, wres=wres)
 
 
 def body(run: Run, replay):
@@ -103,7 +114,7 @@ def body(run: Run, replay):
         try:
             if cfg["solver"] == "SolveUnc":
                 ts = ode.SolveUnc(s["marg"], s["barg"], s["karg"], (0.002 if cfg["hgiven"] else None), rf=(s["rf"] if len(s["rf"]) else None), pre_eig=cfg["pre_eig"],
-                                  rb=(list(range(len(s["rb"]))) if (ci % 3 == 0 and len(s["rb"])) else None))
+                                  rb=([int(x) for x in s["rb"]] if (ci % 3 == 0 and len(s["rb"])) else None))
             else:
                 ts = ode.FreqDirect(s["marg"], s["barg"], s["karg"], rf=(s["rf"] if len(s["rf"]) else None))
             sol = ts.fsolve(Fp, freq, incrb=inc_arg, rf_disp_only=cfg["rfdo"])
@@ -125,6 +136,13 @@ def body(run: Run, replay):
                         must_zero = zz[1] if freq[j] == 0 else zz[0]
                         exp[qn][i, j] = 0.0 if must_zero else val[j]
         Ti = np.linalg.inv(s["T"])
+        if cfg.get("gyro"):
+            # no modal decoupling: the spec's full dynamic-stiffness definition, frequency by frequency (modal coordinates = physical here)
+            for j in range(len(freq)):
+                envm = dict(M=s["M"], B=s["B"], K=s["K"], W=Wv[j], F=Fp[:, j:j + 1])
+                for qn, tm in zip(quant, T_["mat"]):
+                    exp[qn][:, j] = np.ravel(terms.ev(tm, envm))
+            Ti = np.eye(n)
         got = {"d": sol.d, "v": sol.v, "a": sol.a}
         bad = None
         for qn in quant:
@@ -170,6 +188,8 @@ def psd_part(run, np, ode, rng, T_):
         freq = np.sort(rng.uniform(2.0, 60.0, 25))
         nfrc = int(rng.integers(1, 4))
         t_frc = rng.standard_normal((n, nfrc))
+        if trial % 3 == 1:
+            t_frc[:, 0] = 0.0           # a force that loads no equation still reaches the outputs through the direct term drmf
         fpsd = rng.uniform(0.1, 2.0, (nfrc, len(freq)))
         drma = rng.standard_normal((2, n))
         drmd = rng.standard_normal((3, n))
